@@ -107,4 +107,35 @@ example : let f : List (List ℚ) := [[0, 127, 64], [-100, 27, 27]]
     (0 : ℚ) < scaleOf 7 ∧ ∀ d ∈ fieldDiffs (var1 f) f, |d| * scaleOf 7 ≤ 127 := by
   decide +kernel
 
+
+/-! ### file layout: fixed-length records -/
+
+/-- data records of different (time, index) never overlap and lie inside the file: record `k` of period `t`
+starts after the period's index record and ends before the next record starts -/
+theorem layout_disjoint (ncell nrec nt t k : Nat) (hk : k < nrec) (ht : t < nt) :
+    Arl.recOffset ncell nrec t k + Arl.recl ncell ≤ Arl.fileBytes ncell nt nrec ∧
+    (t * (1 + nrec)) * Arl.recl ncell + Arl.recl ncell ≤ Arl.recOffset ncell nrec t k ∧
+    (k + 1 < nrec → Arl.recOffset ncell nrec t k + Arl.recl ncell = Arl.recOffset ncell nrec t (k + 1)) := by
+  unfold Arl.recOffset Arl.fileBytes
+  generalize Arl.recl ncell = L
+  refine ⟨?_, ?_, ?_⟩
+  · have h1 : (t * (1 + nrec) + 1 + k) + 1 ≤ nt * (1 + nrec) := by
+      have : (t + 1) * (1 + nrec) ≤ nt * (1 + nrec) := Nat.mul_le_mul_right _ ht
+      have e : (t + 1) * (1 + nrec) = t * (1 + nrec) + (1 + nrec) := Nat.succ_mul _ _
+      omega
+    calc (t * (1 + nrec) + 1 + k) * L + L = ((t * (1 + nrec) + 1 + k) + 1) * L := by rw [Nat.succ_mul]
+      _ ≤ (nt * (1 + nrec)) * L := Nat.mul_le_mul_right _ h1
+      _ = nt * ((1 + nrec) * L) := Nat.mul_assoc _ _ _
+  · calc t * (1 + nrec) * L + L = (t * (1 + nrec) + 1) * L := by rw [Nat.succ_mul]
+      _ ≤ (t * (1 + nrec) + 1 + k) * L := Nat.mul_le_mul_right _ (by omega)
+  · intro _
+    have : t * (1 + nrec) + 1 + (k + 1) = (t * (1 + nrec) + 1 + k) + 1 := by omega
+    rw [this, Nat.succ_mul]
+
+/-- the size of a file is the number of its records times the record length -/
+theorem layout_size (ncell nt nrec : Nat) :
+    Arl.fileBytes ncell nt nrec = (nt * (1 + nrec)) * (50 + ncell) := by
+  unfold Arl.fileBytes Arl.recl
+  rw [Nat.mul_assoc]
+
 end Props.C20
